@@ -19,10 +19,12 @@ Proved (all streams, thresholds of either sign, monotone counts, zero-threshold 
 * `C08_block_independent`         the sequence of record specifications (frame, pre-trigger length, length)
                                   is the same whether the stream arrives cut into any blocks or as one
                                   block (simulation proof: `Lemmas/EmtSim.lean`, `EmtStep.lean`).
-Kept as a full statement, decided at run time by the oracle `chkC08` on the REAL code (crash =
-violation): `C08_no_oob_full` (bounds across blocks).
+* `C08_no_oob`                    across blocks too, no search read and no record cut ever leaves the
+                                  buffer (invariant `EmtSafe`: the pending edge is recorded, absent, or
+                                  recent enough that its whole record is retained).
 -/
 import DastardV.Lemmas.EmtStep
+import DastardV.Lemmas.EmtSafe
 namespace DastardV.C08
 open Trig
 
@@ -102,12 +104,51 @@ theorem C08_block_independent (zt : ZT) (hzt : ∀ p, -1 ≤ zt p) (per f0 : Int
 example : FreshC { npre := 4, nsamp := 12, emt := { npre := 4, nsamp := 12, threshold := 100, nmonotone := 1, enableZT := true } } :=
   ⟨rfl, rfl, ⟨by decide, by decide, fun _ => by decide⟩⟩
 
-/-- FULL (not yet proved): no stream content or block pattern makes the edge-multi pass index outside.
-Per block this is `C08_search_in_bounds`; across blocks it is decided at run time (a crash of the
-real pipeline is a violation). -/
-def C08_no_oob_full : Prop :=
-  ∀ (zt : ZT) (per f0 : Int) (sg : Bool) (c : Chan) (segs : List (List Nat)),
-    FreshC c → 0 ≤ f0 → (∀ p, -1 ≤ zt p ∧ zt p ≤ 1) →
-    ∃ r, runEmt zt per sg c f0 segs = some r
+/-! ### never indexes outside -/
+
+/-- one block of the real per-channel pipeline in edge-multi mode: append, `TriggerData` (search +
+record cuts), trim -/
+def stepFull (zt : ZT) (c : Chan) (seg : List Nat) (first t0 per : Int) (sg : Bool) : Option (Chan × List Rec) :=
+  match triggerData (append c seg first t0 per sg) zt with
+  | none => none
+  | some (c', recs) => some (trim c', recs)
+
+def runFull (zt : ZT) (t0 per : Int) (sg : Bool) : Chan → Int → List (List Nat) → Option (Chan × List Rec)
+  | c, _, [] => some (c, [])
+  | c, first, seg :: segs =>
+    match stepFull zt c seg first t0 per sg with
+    | none => none
+    | some (c1, rs) =>
+      match runFull zt t0 per sg c1 (first + seg.length) segs with
+      | none => none
+      | some (c2, rs2) => some (c2, rs ++ rs2)
+
+theorem runFull_some (zt : ZT) (hzt : ∀ p, -1 ≤ zt p ∧ zt p ≤ 1) (t0 per : Int) (sg : Bool) :
+    ∀ (segs : List (List Nat)) (c : Chan) (first : Int), EmtSafe c →
+      ((c.emt.next = 0 ∧ 0 ≤ first) ∨ (c.emt.next ≠ 0 ∧ first = c.first + c.buf.length)) →
+      ∃ r, runFull zt t0 per sg c first segs = some r
+  | [], c, first, _, _ => ⟨_, rfl⟩
+  | seg :: segs, c, first, hs, hcont => by
+    obtain ⟨c', recs, htd, hs', hnz, hend⟩ := emtSafe_step c zt hzt hs seg first t0 per sg hcont
+    obtain ⟨r, hr⟩ := runFull_some zt hzt t0 per sg segs (trim c') (first + seg.length) hs' (Or.inr ⟨hnz, hend.symm⟩)
+    refine ⟨(r.1, recs ++ r.2), ?_⟩
+    unfold runFull stepFull
+    simp only [htd]
+    rw [hr]
+
+/-- **C08, never indexes outside.**  For a freshly configured edge-multi channel (valid lengths), ANY
+stream content, ANY cut into blocks (any lengths, including empty blocks and blocks shorter than a
+record), any threshold / monotone count / record mode and any kink-fit oracle with shifts in
+{−1, 0, +1}: every block is processed — no read of the search and no record cut leaves the buffer
+(in the model a Go index/slice panic is the value `none`). -/
+theorem C08_no_oob (zt : ZT) (hzt : ∀ p, -1 ≤ zt p ∧ zt p ≤ 1) (t0 per f0 : Int) (hf0 : 0 ≤ f0) (sg : Bool)
+    (c : Chan) (hs : EmtSafe c) (hfresh : c.buf = [] ∧ c.emt.next = 0) (segs : List (List Nat)) :
+    ∃ r, runFull zt t0 per sg c f0 segs = some r :=
+  runFull_some zt hzt t0 per sg segs c f0 hs (Or.inl ⟨hfresh.2, hf0⟩)
+
+/-- the hypotheses are met by an ordinary configuration -/
+example : EmtSafe { npre := 4, nsamp := 12, ts := { edgeMulti := true },
+                    emt := { npre := 4, nsamp := 12, threshold := 100, nmonotone := 1, enableZT := true } } :=
+  ⟨by decide, by decide, fun _ => by decide, rfl, Or.inr rfl, Or.inl ⟨rfl, rfl⟩⟩
 
 end DastardV.C08
